@@ -357,7 +357,7 @@ where
         width: u32,
         height: u32,
     ) -> Result<(), SPI::Error> {
-        self.set_display_window(spi, x, y, x + width, y + height)?;
+        self.set_display_window(spi, x, y, x + width - 1, y + height - 1)?;
         self.set_cursor(spi, x, y)?;
         self.update_achromatic_frame(spi, delay, buffer)?;
         self.set_display_window(spi, 0, 0, WIDTH - 1, HEIGHT - 1)
